@@ -46,7 +46,16 @@ class CustomError(Exception):
     """module-level (picklable) exception with two args"""
 
 
+def _make_exc(key):
+    cls, args = EXC[key]
+    e = cls(*args)
+    if key == "noted":
+        e.add_note("a note the user function attached itself")
+    return e
+
+
 EXC = {
+    "noted": (ValueError, ("already carries a note",)),
     "value": (ValueError, ("m",)),
     "key": (KeyError, ("k",)),
     "runtime0": (RuntimeError, ()),
@@ -142,7 +151,7 @@ def body_dag(data) -> Outcome:
 
     def fail(fname, a):
         if fname == fail_fn:
-            raise cls(*args)
+            raise _make_exc(exc_key)
 
     try:
         p = build_pipeline(prog, log, fail=fail)
@@ -237,7 +246,7 @@ def body_map(data) -> Outcome:
 
         if base == fbase:
             log.append(["fail", fn_name, base, os.getpid(), {k: repr(v) for k, v in kw.items()}])
-            raise cls(*args)
+            raise _make_exc(exc_key)
         ms = delays[zlib.crc32(base.encode()) % len(delays)]
         if ms:
             time.sleep(ms / 1000.0)
